@@ -1,9 +1,12 @@
 // C07 harness: the three placement entry points of /repo on circuits of the C07 domain; every case prints
 // one line with the outcome of each stage; a crash / sanitizer report / abort kills the process (the python
 // runner records the case it died on and resumes after it).
-//   flow gen SEED COUNT STREAM     STREAM: 0 general small, 1 magnitude (|v| <= 2^22, cell area < 2^31), 2 degenerate shapes
+//   flow gen SEED COUNT STREAM     STREAM: 0 general small, 1 magnitude (|v| <= 2^22, cell area < 2^31), 2 degenerate shapes,
+//                                  3 unit cells (rows of height 1-2, many 1x1 cells, bins filled to the brim, some movable cells of
+//                                  zero area) with a callback that observes or RESIZES a cell / rescales the net weights mid-run
 //   flow run < cases
-// case: "FL <rows> <cells> <nets> stages effort seed netmodel"     stages bits: 1 global, 2 legalize, 4 detailed
+// case: "FL <rows> <cells> <nets> stages effort seed netmodel [cbmode cbk cbcell cbw]"   stages bits: 1 global, 2 legalize, 4 detailed
+//       cbmode 0 no callback, 1 observing callback, 2 at invocation cbk set the width of cell cbcell to cbw, 3 at invocation cbk double the net weights
 // result: "G:<RET|THROW msg> L:<..> D:<..>"  (stages not requested print '-')
 #include "cgen.hpp"
 
@@ -38,6 +41,33 @@ static TCircuit genMagnitude(SplitMix &g) {
   int nn = (int)g.uni(0, 2 * n);
   for (int k = 0; k < nn; ++k) {
     int d = (int)g.uni(1, 5); std::vector<std::array<long long, 3>> net;
+    for (int j = 0; j < d; ++j) { int cc = (int)g.uni(0, n - 1); net.push_back({cc, g.uni(0, t.cells[cc][2]), g.uni(0, t.cells[cc][3])}); }
+    t.nets.push_back(net); t.netw2.push_back((int)g.uni(1, 4));
+  }
+  return t;
+}
+
+// stream 3: the integer corners of the 1-D transport / bin bookkeeping: unit-area cells, exactly full bins, zero-area movable cells
+static TCircuit genUnit(SplitMix &g) {
+  TCircuit t;
+  long long rh = g.coin(70) ? 1 : 2; int nrows = (int)g.uni(1, 8); long long W = g.uni(6, 60);
+  long long x0 = g.uni(-5, 5), y0 = g.uni(-5, 5);
+  for (int i = 0; i < nrows; ++i) t.rows.push_back({x0, x0 + W, y0 + i * rh, y0 + (i + 1) * rh, (long long)((i % 2) ? 5 : 0)});
+  long long area = W * nrows * rh, target = area * g.uni(55, 100) / 100, used = 0;
+  int guard = 0;
+  while (used < target && guard++ < 400) {
+    std::array<long long, 8> c{};
+    long long w = g.coin(60) ? 1 : (g.coin(8) ? 0 : g.uni(2, 4));
+    bool fx = g.coin(4);
+    c[2] = w; c[3] = rh; c[4] = 0; c[5] = 0; c[6] = fx; c[7] = 1;
+    c[0] = x0 + g.uni(0, std::max<long long>(0, W - w)); c[1] = y0 + g.uni(0, nrows - 1) * rh;
+    if (g.coin(30)) c[0] = x0 + (g.coin(50) ? 0 : W - w);           // piled up against one side
+    t.cells.push_back(c); used += std::max<long long>(w, 1) * rh;
+    if (t.cells.size() >= 120) break;
+  }
+  int n = (int)t.cells.size(); int nn = (int)g.uni(0, n);
+  for (int k = 0; k < nn; ++k) {
+    int d = (int)g.uni(1, 4); std::vector<std::array<long long, 3>> net;
     for (int j = 0; j < d; ++j) { int cc = (int)g.uni(0, n - 1); net.push_back({cc, g.uni(0, t.cells[cc][2]), g.uni(0, t.cells[cc][3])}); }
     t.nets.push_back(net); t.netw2.push_back((int)g.uni(1, 4));
   }
@@ -81,8 +111,19 @@ int main(int argc, char **argv) {
     for (long long it = 0; it < count; ++it) {
       TCircuit t;
       if (stream == 1) t = genMagnitude(g); else if (stream == 2) t = genDegenerate(g);
+      else if (stream == 3) { t = genUnit(g); ensureDomain(t); }
       else { GenOpts o; o.nets = true; o.maxCells = 14; t = genCircuit(g, o); ensureDomain(t); }
       int stages = g.coin(25) ? 7 : (g.coin(50) ? 2 : (g.coin(60) ? 6 : 1));
+      if (stream == 3) {
+        stages = g.coin(70) ? 1 : 7;
+        int cbmode = g.coin(35) ? 0 : (g.coin(30) ? 1 : (g.coin(75) ? 2 : 3)); int n = (int)t.cells.size();
+        int cell = (int)g.uni(0, n - 1);
+        for (int tries = 0; tries < 8 && (t.cells[cell][6] || (g.coin(50) && t.cells[cell][2] != 0)); ++tries) cell = (int)g.uni(0, n - 1);   // prefer movable, often zero-width
+        long long nw = g.coin(40) ? 0 : g.uni(1, 4);
+        printf("FL %s %s %d %d %d %d %d %d %d %lld\n", showRowsCells(t).c_str(), showNets(t).c_str(), stages, (int)g.uni(1, 3), (int)g.uni(0, 1000), (int)g.uni(0, 3),
+               cbmode, (int)g.uni(0, 6), cell, nw);
+        continue;
+      }
       printf("FL %s %s %d %d %d %d\n", showRowsCells(t).c_str(), showNets(t).c_str(), stages, (int)g.uni(1, 4), (int)g.uni(0, 1000), (int)g.uni(0, 3));
     }
     return 0;
@@ -94,6 +135,7 @@ int main(int argc, char **argv) {
     IntReader r; r.v = vh_ints(line.substr(3));
     TCircuit t = readRowsCells(r); readNets(r, t);
     int stages = (int)r.nx(), effort = (int)r.nx(), seed = (int)r.nx(), nm = (int)r.nx();
+    int cbmode = (int)r.nx(), cbk = (int)r.nx(), cbcell = (int)r.nx(); long long cbw = r.nx();
     std::string G = "-", L = "-", D = "-";
     try {
       Circuit c = buildCircuit(t);
@@ -102,9 +144,18 @@ int main(int argc, char **argv) {
       p.global.continuousModel.netModel = nms[nm & 3];
       p.global.maxNbSteps = std::min(p.global.maxNbSteps, 12);
       p.detailed.nbPasses = std::min(p.detailed.nbPasses, 2);
-      if (stages & 1) G = stage([&] { c.placeGlobal(p); });
-      if (stages & 2) L = stage([&] { c.legalize(p); });
-      if (stages & 4) D = stage([&] { c.placeDetailed(p); });
+      int inv = 0;
+      std::optional<PlacementCallback> cb;
+      if (cbmode != 0) cb = [&](PlacementStep) {
+        int k = inv++;
+        if (cbmode == 1) { (void)c.hpwl(); return; }
+        if (k != cbk) return;
+        if (cbmode == 2 && c.nbCells() > 0) { std::vector<int> w = c.cellWidth(); w[cbcell % c.nbCells()] = (int)cbw; c.setCellWidth(w); }
+        if (cbmode == 3) { std::vector<float> nw; for (int k2 = 0; k2 < c.nbNets(); ++k2) nw.push_back(2.0f * c.netWeight(k2)); c.setNetWeights(nw); }
+      };
+      if (stages & 1) { inv = 0; G = stage([&] { c.placeGlobal(p, cb); }); }
+      if (stages & 2) { inv = 0; L = stage([&] { c.legalize(p, cb); }); }
+      if (stages & 4) { inv = 0; D = stage([&] { c.placeDetailed(p, cb); }); }
     } catch (std::exception &e) { G = std::string("SETUP_THROW_") + e.what(); }
     printf("G:%s L:%s D:%s\n", G.c_str(), L.c_str(), D.c_str()); fflush(stdout);
   }
